@@ -13,6 +13,8 @@ CORRESPONDENCES = [
     'GPTNeoXKFACPreconditioner under simdist + DeepSpeed stand-in: after every step each rank holds its shard of the gradient the '
     'unsharded layer receives from single-process K-FAC (eigen) on the union batch, factors (gathered state_dict) equal the unsharded '
     'factors, replicas agree; and == extracted Shard.neox_precondition (assemble, pre_eigen, split) in IEEE doubles',
+    'the per-rank sequence of all_gather / all_reduce / reduce_scatter / broadcast calls (group members, kind, element count, root) of the '
+    'GPT-NeoX run == extracted NeoxComm.neox_issues (unbucketed runs), and proj_ok_b accepts the full logs of every run',
 ]
 TRUSTED = [
     'Coq 8.16.1 kernel (coqc); real-number axioms for the reduce_scatter identity; index theorems closed',
@@ -43,6 +45,10 @@ def gen(rng, tier):
            'allreduce_bucket_cap_mb': rng.choice([0.0, 25.0]), 'factor_update_steps': 1, 'inv_update_steps': rng.choice([1, 1, 2]),
            'accumulation_steps': 1}
     hist = [['train', 1] for _ in range(rng.randint(1, 3))]
+    if rng.random() < 0.3:          # a damping schedule with inverses reused across steps: the CURRENT damping must be used (plain eigen path)
+        cfg['damping'] = ['table', [rng.choice([0.5, 0.25, 1.0, 2.0]) for _ in range(6)]]
+        cfg['inv_update_steps'] = 2
+        hist = [['train', 1] for _ in range(rng.randint(2, 4))]
     if rng.random() < 0.5:
         hist.append(['state_dict'])
     return cfg, hist
@@ -55,7 +61,9 @@ def run(tier, seed, rng):
                    'on/off, bucketed or not, clipping off / active, 1-3 steps, exact integer data in float64; non-trivial = M > 1 and D > 1; distinct by hash')
     failures: list[Failure] = []
     from harness.props import C03
+    from harness import neoxcomm
     projq = []
+    gen_checked = 0
     n = 50 if tier == 'quick' else 500
     worst = 0.0
     for k in range(n):
@@ -73,6 +81,12 @@ def run(tier, seed, rng):
                                     oracle_rejects=True, correspondence=CORRESPONDENCES[0], theorems=THEOREMS, oracle='run completes on every rank'))
             continue
         projq.append((case, C03.encode_logs(w, W)))
+        gdiff, gn = neoxcomm.compare(cfg, hist, w)
+        gen_checked += gn
+        if gdiff:
+            failures.append(Failure(what='observed collectives differ from NeoxComm.neox_issues: ' + gdiff[:400], case=case, impl=gdiff[:600],
+                                    model='NeoxComm.neox_issues', oracle_rejects=False, correspondence=CORRESPONDENCES[1], theorems=['neox_comm_proj'],
+                                    oracle='the run completed under simdist and proj_ok_b is evaluated separately'))
         ref = neoxrun.reference(cfg, hist)
         probs, clipprobs, diffs = [], [], []
         trains = [i for i, e in enumerate(hist) if e[0] == 'train']
@@ -153,6 +167,7 @@ def run(tier, seed, rng):
                                     oracle='unsharded single-process run with clipping'))
     failures += C03.check_proj(projq, CORRESPONDENCES[0], cov)
     cov.extra['max_rel_err_vs_unsharded'] = worst
+    cov.extra['collectives_compared_with_neox_generator'] = gen_checked
     return cov, failures
 
 
